@@ -82,7 +82,9 @@ AdvanceRound(s, r) ==
             [k |-> "round", round |-> r + 1])
 
 (* process_qc: advance_round then update_high_qc *)
+\* attack model "stale_qc_ignored": a QC of a round the node has already left is not merged into high_qc
 ProcessQC(s, q) ==
+  IF "stale_qc_ignored" \in Weaken /\ Rnd(q) < s.r THEN s ELSE
   LET s1 == AdvanceRound(s, Rnd(q)) IN
   IF Rnd(q) > Rnd(s1.hq) THEN [s1 EXCEPT !.hq = q] ELSE s1
 
